@@ -821,6 +821,13 @@ def model(ex, st, c, args):
         return Adt('ControlFlow', 1, [Adt('Result', 1, [r.fields[0]])])
     if c.startswith('<Result<') and c.endswith('::from_residual'):
         return Adt('Result', 1, [args[0].fields[0]])
+    if c.endswith(' as Try>::branch') and c.startswith('<Option<'):
+        o = args[0]
+        if o.variant == 1:
+            return Adt('ControlFlow', 0, [o.fields[0]])
+        return Adt('ControlFlow', 1, [none()])
+    if c.startswith('<Option<') and c.endswith('::from_residual'):
+        return none()
     if c == 'must_use':
         return args[0]
     if c in ('core::panicking::panic', 'std::rt::panic_fmt', 'core::panicking::panic_fmt', '__panic', 'std::rt::begin_panic',
